@@ -639,6 +639,71 @@ run_s2(void *arg)
 	vh_fini();
 }
 
+
+// ---- S11: a background dial whose name lookup fails is tried again -------------------------------------------
+// tcp / ws dialer towards a host name that does not resolve for the first k lookups (the engine answers
+// "*.invalid" itself) and then resolves to the listener: every failed attempt is followed by another one
+// within the larger reconnect time, and once the name resolves the connection comes up.
+static void
+run_s11(void *arg)
+{
+	int ws    = (int) (intptr_t) arg;
+	int nfail = 1 + vs_choose(VK_ENV, 4); // 1..4 failed lookups
+	int M     = vs_choose(VK_ENV, 2) ? 20 : 7;
+	vs_tcp_grace_us = 1500;
+	vh_init(0);
+	ledger_reset();
+	nng_socket   a, b;
+	nng_listener l;
+	nng_dialer   d;
+	int          port = 0;
+	char         url[120];
+	VH_OK(nng_pair0_open(&a));
+	VH_OK(nng_pair0_open(&b));
+	watch(0, b);
+	VH_OK(nng_listen(a, ws ? "ws://127.0.0.1:0/s11" : "tcp://127.0.0.1:0", &l, 0));
+	VH_OK(nng_listener_get_int(l, NNG_OPT_BOUND_PORT, &port));
+	snprintf(url, sizeof(url), ws ? "ws://flaky.s11.invalid:%d/s11" : "tcp://flaky.s11.invalid:%d", port);
+	VH_OK(nng_socket_set_ms(b, NNG_OPT_RECONNMINT, M));
+	VH_OK(nng_socket_set_ms(b, NNG_OPT_RECONNMAXT, M));
+	vs_gai_fail_left = nfail;
+	vs_gai_calls     = 0;
+	int64_t t0 = vs_now(), t_last = t0;
+	int     seen = 0;
+	VH_OK(nng_dial(b, url, &d, NNG_FLAG_NONBLOCK));
+	vs_settle();
+	int connected = 0;
+	for (int step = 0; step < (nfail + 2) * (M + 3) + 50 && !connected; step++) {
+		if (vs_gai_calls > seen) {
+			if (seen > 0 && vs_now() - t_last > M + 2)
+				vs_fail("C14:redial-late",
+				    "lookup %d of the unresolvable name came %lld ms after the previous one failed; the "
+				    "larger reconnect time is %d ms",
+				    vs_gai_calls, (long long) (vs_now() - t_last), M);
+			seen   = vs_gai_calls;
+			t_last = vs_now();
+		}
+		if (count_ev(0, NNG_PIPE_EV_ADD_POST) > 0)
+			connected = 1;
+		else {
+			vs_sleep(0);
+			vs_settle();
+		}
+	}
+	if (!connected)
+		vs_fail("C14:redial-missing",
+		    "%s dialer, name unresolvable for the first %d lookup(s): %d lookup(s) were made in %lld ms "
+		    "(reconnect time %d ms) and no connection came up - a failed background dial was not tried again",
+		    ws ? "ws" : "tcp", nfail, vs_gai_calls, (long long) (vs_now() - t0), M);
+	if (vs_gai_calls < nfail + 1)
+		vs_fail("harness:s11", "connected after %d lookups, %d had to fail", vs_gai_calls, nfail);
+	vs_outcome("fail%d M%d lookups%d t%lld", nfail, M, vs_gai_calls, (long long) ((vs_now() - t0) / 8));
+	nng_socket_close(b);
+	nng_socket_close(a);
+	vs_settle();
+	vh_fini();
+}
+
 // ---- S3: redial timing against a raw AF_UNIX listener --------------------------
 typedef struct s3arg {
 	int m, M;      // RECONNMINT, RECONNMAXT
@@ -1905,6 +1970,8 @@ main(int argc, char **argv)
 		    s3[i].at_dialer ? "dialeropt" : "sockopt");
 		explore(name, run_s3, &s3[i], 0, 0, 0, 0);
 	}
+	explore("S11-unresolvable-name-redial-tcp", run_s11, (void *) 0, 0, 0, 0, 0);
+	explore("S11-unresolvable-name-redial-ws", run_s11, (void *) 1, 0, 0, 0, 0);
 	// long outages: the peer refuses for 300 / 1000 ms (50 .. 300 failed dials in a row, the back-off grown
 	// to its ceiling long before), then listens again: the next attempt still comes within the larger time
 	{
